@@ -85,8 +85,9 @@ impl<'a> Ctx<'a> {
         });
         let chk = g!("is_in_check", json!([b.is_in_check(&Color::WHITE), b.is_in_check(&Color::BLACK), b.is_current_in_check()]));
         let valid = g!("is_valid", b.is_valid());
+        let anylegal = g!("is_any_move_legal", { let pl = b.generate_pseudo_legal_moves(); b.is_any_move_legal(&pl) });
         let s = g!("snapshot", snap(b));
-        self.out.emit(&json!({"c": id, "ev": "gen", "legal": legal, "pf": pf, "nq": nq, "chk": chk, "valid": valid, "snap": s}));
+        self.out.emit(&json!({"c": id, "ev": "gen", "legal": legal, "pf": pf, "nq": nq, "chk": chk, "valid": valid, "anylegal": anylegal, "snap": s}));
         Ok(())
     }
 
